@@ -131,13 +131,14 @@ class SVal(Sym):
 class SList(Sym):
     """Symbolic-length list.  `get(i)` takes a z3 Int (or python int) and returns a value."""
 
-    __slots__ = ("length", "get", "name", "tainted")
+    __slots__ = ("length", "get", "name", "tainted", "meta")
 
-    def __init__(self, length, get, name="list", tainted=False):
+    def __init__(self, length, get, name="list", tainted=False, meta=None):
         self.length = length
         self.get = get
         self.name = name
         self.tainted = tainted
+        self.meta = meta
 
     def __repr__(self):
         return "SList(%s, len=%s)" % (self.name, self.length)
